@@ -3,19 +3,19 @@
 //!
 //! The statement is scale-free: whether the ray's line crosses the triangle does not depend on the unit of
 //! length or on the length of the direction, and the returned parameter scales by 2^(kt-kd). vek's only
-//! scale-dependent step is the parallel-ray guard, which compares the determinant
-//! a = edge1 . (direction x edge2) with the *absolute* threshold T::epsilon(). Every case of this module is an
+//! scale-dependent step WAS the parallel-ray guard, which compared the determinant
+//! a = edge1 . (direction x edge2) with the *absolute* threshold T::epsilon() (finding F15, repaired: the guard is
+//! now relative to max|edge1_i| * max|h_i|). Every case of this module is an
 //! integer configuration (positions O, V0, V0+E1, V0+E2 in units of 2^kt, direction D in units of 2^kdir/den);
 //! the oracle is an exact integer Cramer solve (i128, Leibniz determinants with a replaced column) of
 //!     u E1 + v E2 - tau D = O - V0,
 //! so a = det * 2^(2 kt + kdir) / den *exactly*, u, v do not depend on the scales and the parameter is
 //! tau * den * 2^(kt - kdir).
 //!
-//! What the unchanged code treats as parallel: |a| < T::epsilon() (2^-52 for f64 and Rat, 2^-23 for f32) with
-//! its own, computed a. For integer directions (and axis / Pythagorean unit directions) every product and sum
-//! in a is an integer times a power of two below 2^24, i.e. vek's a *is* the exact a, and exactly the cases
-//! with 0 < |a| < epsilon are not asserted (labelled). |a| == epsilon and everything above is asserted.
-//! For rounded unit directions (floats) a band of the forward error bound around epsilon is excluded as well.
+//! What counts as parallel: only a determinant that is zero to within rounding RELATIVE to its factors,
+//! |a| <= 2 eps * max|edge1_i| * max|(direction x edge2)_i| (a scale-free ratio of the integer configuration; for
+//! rounded unit directions the forward error bound of the computed a is added). Those cases are not asserted
+//! (labelled); every other non-zero determinant is asserted, in particular 0 < |a| < T::epsilon() in absolute terms.
 
 use crate::Lift;
 use vek::geom::repr_c::Ray;
@@ -337,25 +337,29 @@ fn ray_scale_case<S: Lift>(t: &mut Tape, cx: &mut Cx) -> CaseResult {
         }
         return Ok(());
     }
-    // ---- vek's parallel band: |a| < T::epsilon(), a = det 2^(2 kt + kdir) / den
+    // ---- the parallel band is RELATIVE: a = edge1 . h, h = direction x edge2, is "zero to within rounding" when
+    // |a| <= eps * max|edge1_i| * max|h_i| -- a scale-free quantity: rel = |det| / (max|E1_i| * max|(D x E2)_i|).
+    // Nothing is asserted for rel <= 2 eps (plus, for rounded directions, the forward error bound of the computed a);
+    // every other non-zero determinant is a proper crossing and is asserted, however small |a| is in absolute terms
+    // (an absolute threshold made every triangle smaller than ~sqrt(eps) invisible: finding F15).
     let ea = 2 * kt + kdir;
     let adet = (det as f64).abs();
     let a_abs = adet / den as f64 * p2f(ea.clamp(-1000, 1000));
     let ad = abs_triple(&ee1, &dd, &ee2);
     let gamma = 16.0 * S::eps();
-    let below = if S::EXACT {
-        let a = S::q(1, den as i64) * S::i(det as i64) * pow2::<S>(ea);
-        a.abs() < S::epsilon()
-    } else if exact_dir {
-        a_abs < S::eps()
-    } else {
-        a_abs * (1.0 - 2.0 * gamma * ad / adet) < S::eps() * (1.0 + 1e-9)
-    };
+    let eps_t = if S::EXACT { p2f(-52) } else { S::eps() };
+    let hh: V = [dd[1] * ee2[2] - dd[2] * ee2[1], dd[2] * ee2[0] - dd[0] * ee2[2], dd[0] * ee2[1] - dd[1] * ee2[0]];
+    let m1 = ee1.iter().map(|x| x.abs()).max().unwrap() as f64;
+    let mh = hh.iter().map(|x| x.abs()).max().unwrap() as f64;
+    let rel = adet / (m1 * mh);
+    let below = if exact_dir { rel <= 2.0 * eps_t } else { rel <= 2.0 * eps_t + 2.0 * gamma * ad / (m1 * mh) };
     if below {
-        cx.label("|a| < T::epsilon(): vek's parallel band (not asserted)");
+        cx.label("|a| <= 2 eps max|edge1| max|direction x edge2|: parallel to within rounding (not asserted)");
         return Ok(());
     }
-    let eps_t = if S::EXACT { p2f(-52) } else { S::eps() };
+    if a_abs < eps_t {
+        cx.label("0 < |a| < T::epsilon() in absolute terms but not parallel (asserted; F15 regime)");
+    }
     cx.label(if a_abs < 4096.0 * eps_t {
         "eps <= |a| < 2^12 eps (asserted)"
     } else if a_abs < p2f(30) * eps_t {
@@ -458,7 +462,7 @@ fn ray_scale_case<S: Lift>(t: &mut Tape, cx: &mut Cx) -> CaseResult {
 }
 
 pub fn checks(checks: &mut Vec<Check>) {
-    let about = "Ray::triangle_intersection on integer configurations scaled exactly by powers of two (positions 2^kt, direction 2^kd, hit distance 2^j; f64 |kt| <= 200, f32 |kt| <= 30, Rat -28..12) vs an exact integer Cramer solve: u, v scale-free, parameter * 2^(kt-kd); None iff determinant 0 or outside the closed triangle; asserted for every |a| >= T::epsilon() (a = edge1 . (direction x edge2) = det * 2^(2kt+kd), exact), in particular eps <= |a| < 1e-7 (small triangles, short directions); same constructed classes as ray-*";
+    let about = "Ray::triangle_intersection on integer configurations scaled exactly by powers of two (positions 2^kt, direction 2^kd, hit distance 2^j; f64 |kt| <= 200, f32 |kt| <= 30, Rat -28..12) vs an exact integer Cramer solve: u, v scale-free, parameter * 2^(kt-kd); None iff determinant 0 or outside the closed triangle; asserted for every determinant that is not zero to within rounding relative to its factors (|a| > 2 eps max|edge1_i| max|(direction x edge2)_i|, a = det * 2^(2kt+kd) exact), in particular for |a| far below T::epsilon() in absolute terms (small triangles, short directions); same constructed classes as ray-*";
     checks.push(Check { name: "ray-scale-rat", about, kind: Kind::Tape { len: 96, quick: 10_000, thorough: 600_000, f: ray_scale_case::<Rat> } });
     checks.push(Check { name: "ray-scale-f64", about, kind: Kind::Tape { len: 96, quick: 20_000, thorough: 1_000_000, f: ray_scale_case::<f64> } });
     checks.push(Check { name: "ray-scale-f32", about, kind: Kind::Tape { len: 96, quick: 20_000, thorough: 1_000_000, f: ray_scale_case::<f32> } });
